@@ -3,7 +3,13 @@
 //! reopen / search_vec).  Distances handed to the Coq model are the values the real kernel
 //! (memvid_core::simd::l2_distance_simd) returns, as bit patterns; the property oracle
 //! recomputes the answer by brute force from the same kernel and is tolerant to ties
-//! exactly as the property is.
+//! exactly as the property is.  A NaN distance is read as "undefined = farthest": it is never
+//! closer than anything, every defined distance is closer than it.
+//! The three defects this check found (an accepted empty embedding made search_vec panic; a NaN
+//! distance broke the order or made sort_by panic; after the first repair a sign-set NaN
+//! distance ranked first) are repaired in /repo (564c799, 9a670c1, 1932440): their witnesses
+//! run first as a fixed corpus, and the generators keep producing empty embeddings and NaN
+//! (both signs) / inf components; any failure is a plain violation now.
 use crate::store::*;
 use crate::term::*;
 use memvid_core::simd::l2_distance_simd;
@@ -46,7 +52,7 @@ fn auto_commit(obs: &StepObs) -> bool {
     obs.auto_committed || matches!(&obs.op_term, T::C(_, args) if matches!(args.last(), Some(T::O(Some(_)))))
 }
 
-fn key_term(d: f32) -> T { if d.is_nan() { T::none() } else { T::some(T::N(d.to_bits() as u128)) } }
+fn key_term(d: f32) -> T { T::N(d.to_bits() as u128) }
 fn hits_term(h: &[(u64, f32)]) -> T { T::L(h.iter().map(|(f, d)| T::Tup(vec![T::N(*f as u128), key_term(*d)])).collect()) }
 fn ok(t: T) -> T { T::C("Ok", vec![t]) }
 fn err(k: u128) -> T { T::C("Err", vec![T::N(k)]) }
@@ -66,19 +72,80 @@ fn gen_comp(r: &mut Rng, s: Style) -> f32 {
         Style::Uniform => ((r.next() >> 40) as f32 / (1u64 << 23) as f32) - 1.0,
         // finite extremes and +-inf: with finite queries the distances are finite, +inf, never NaN
         Style::Extreme => *r.pick(&[f32::MAX, -f32::MAX, f32::MIN_POSITIVE, 1e-45, -1e-45, 1e38, -1e38, 0.0, -0.0, 1.0, -1.0, 1.8446743e19, 3.4e38, 1.0e-20]),
-        Style::Nan => *r.pick(&[f32::NAN, f32::INFINITY, f32::NEG_INFINITY, 0.0, 1.0, -2.0, 3.0, f32::MAX, 0.5]),
+        // f32::NAN is 0x7FC00000; a NaN computed on x86 (0.0 / 0.0, inf - inf) is 0xFFC00000: sign bit set
+        Style::Nan => *r.pick(&[f32::NAN, f32::from_bits(0xFFC0_0000), f32::INFINITY, f32::NEG_INFINITY, 0.0, 1.0, -2.0, 3.0, f32::MAX, 0.5, 1.0, 2.0]),
     }
 }
 fn gen_vec(r: &mut Rng, dim: usize, s: Style) -> Vec<f32> { (0..dim).map(|_| gen_comp(r, s)).collect() }
-fn pick_dim(r: &mut Rng) -> usize {
-    match r.below(10) { 0..=3 => *r.pick(&[1usize, 2, 3, 4, 7, 8, 9, 15, 16, 17, 31, 32, 33, 63, 64]), 4..=6 => r.range(1, 8) as usize, _ => r.range(1, 64) as usize }
-}
+/// dimensions: 1..=40 (every residue mod 8, 16 and 32) and the edges of 48, 64, 128, 384
+const BIG_DIMS: [usize; 12] = [47, 48, 49, 63, 64, 65, 127, 128, 129, 383, 384, 385];
+fn pick_dim(r: &mut Rng) -> usize { if r.chance(1, 5) { *r.pick(&BIG_DIMS) } else { r.range(1, 40) as usize } }
+fn dim_tags(dim: usize) -> Vec<String> { vec![format!("dim={}", dim), format!("dim%16={}", dim % 16)] }
 fn pick_style(r: &mut Rng) -> Style {
     match r.below(10) { 0..=2 => Style::Tern, 3..=4 => Style::SmallInt, 5 => Style::Binary, 6..=8 => Style::Uniform, _ => Style::Extreme }
 }
 fn pick_k(r: &mut Rng, m: usize) -> u64 {
     match r.below(9) { 0 => 0, 1 => 1, 2 => m.saturating_sub(1) as u64, 3 => m as u64, 4 => m as u64 + 5, 5 => u64::MAX, 6 => m as u64 + 1, _ => r.below(m as u64 + 2) }
 }
+
+/// a vector that differs from `base` only where the mode says
+fn vary(r: &mut Rng, base: &[f32], variation: u64, style: Style) -> Vec<f32> {
+    let dim = base.len();
+    if variation == 0 || variation > 3 || dim == 0 { return gen_vec(r, dim, style); }
+    let mut v = base.to_vec();
+    let t = (r.range(1, 3) as usize).min(dim);
+    for j in 0..t {
+        let i = match variation { 1 => dim - 1 - j, 2 => j, _ => r.below(dim as u64) as usize };
+        v[i] = gen_comp(r, style);
+        if variation == 3 { break; }
+    }
+    v
+}
+
+/// Independent reference: the L2 distance in f64 (no use of the crate's kernel).  Applicable when every
+/// coordinate difference is 0 or of magnitude 1e-15..1e15 (no overflow/underflow of a square in f32);
+/// then the f32 kernel result must lie within a dimension-aware rounding margin of it.
+fn ref_distance(q: &[f32], v: &[f32]) -> Option<f64> {
+    if q.len() != v.len() { return None; }
+    let mut s = 0f64;
+    for (a, b) in q.iter().zip(v.iter()) {
+        let d = *a as f64 - *b as f64;
+        if !d.is_finite() { return None; }
+        if d != 0.0 && !(1e-15..=1e15).contains(&d.abs()) { return None; }
+        s += d * d;
+    }
+    Some(s.sqrt())
+}
+fn ref_margin(dim: usize) -> f64 { (dim as f64 + 8.0) * 2.4e-7 }
+
+/// the property against the independent reference: every reported distance is the reference distance up to
+/// rounding, and with the reference distances no later hit / omitted document is closer beyond the margin
+fn ref_oracle(docs: &[(u64, Vec<f32>)], q: &[f32], k: u64, hits: &[(u64, f32)]) -> Result<Option<String>, ()> {
+    let mut refs: Vec<(u64, f64)> = vec![];
+    for (f, v) in docs { match ref_distance(q, v) { Some(d) => refs.push((*f, d)), None => return Err(()) } }
+    let eps = ref_margin(q.len());
+    let m = docs.len();
+    if hits.len() != (k.min(m as u64)) as usize { return Ok(None); } // counted by the other oracle
+    // assign hits to documents: same frame id and a reference distance matching the reported one
+    let mut used = vec![false; m]; let mut hit_ref: Vec<f64> = vec![];
+    for (f, d) in hits {
+        let dd = *d as f64;
+        match (0..m).find(|i| !used[*i] && refs[*i].0 == *f && (dd - refs[*i].1).abs() <= eps * refs[*i].1.max(dd) + 1e-30) {
+            Some(i) => { used[i] = true; hit_ref.push(refs[i].1); }
+            None => return Ok(Some(format!("distance: hit (frame {}, distance {:?}) matches no document of that frame id whose f64 reference distance is within {:e} relative", f, d, eps))),
+        }
+    }
+    for i in 0..hit_ref.len() { for j in i + 1..hit_ref.len() { if hit_ref[j] * (1.0 + eps) < hit_ref[i] * (1.0 - eps) {
+        return Ok(Some(format!("order: by the f64 reference hit {} (frame {}, {:e}) is farther than hit {} (frame {}, {:e})", i, hits[i].0, hit_ref[i], j, hits[j].0, hit_ref[j]))); } } }
+    if let Some(last) = hit_ref.last() {
+        for i in 0..m { if !used[i] && refs[i].1 * (1.0 + eps) < last * (1.0 - eps) {
+            return Ok(Some(format!("omitted-closer: by the f64 reference frame {} at {:e} is omitted although the last of {} hits is at {:e}", refs[i].0, refs[i].1, hits.len(), last))); } }
+    }
+    Ok(None)
+}
+
+/// "a is strictly closer than b", an undefined (NaN) distance being farthest
+fn closer(a: f32, b: f32) -> bool { !a.is_nan() && (b.is_nan() || a < b) }
 
 /// the property on one answer, from the brute-force distances `all` (frame, distance) in index
 /// order; returns the first failure.  Tie order is NOT demanded (the property does not).
@@ -94,51 +161,78 @@ fn nn_oracle(all: &[(u64, f32)], k: u64, hits: &[(u64, f32)]) -> Option<String> 
             None => return Some(format!("membership: hit (frame {}, distance {:?}) is not an unused (frame, kernel distance) pair of the index", f, d)),
         }
     }
-    for i in 0..hits.len() { for j in i + 1..hits.len() { if hits[i].1 > hits[j].1 {
+    for i in 0..hits.len() { for j in i + 1..hits.len() { if closer(hits[j].1, hits[i].1) {
         return Some(format!("order: hit {} (frame {}, {:?}) comes before hit {} (frame {}, {:?})", i, hits[i].0, hits[i].1, j, hits[j].0, hits[j].1)); } } }
     if let Some(last) = hits.last() {
-        for i in 0..m { if !used[i] && all[i].1 < last.1 {
+        for i in 0..m { if !used[i] && closer(all[i].1, last.1) {
             return Some(format!("omitted-closer: frame {} at distance {:?} is omitted although the last of {} hits (frame {}) is at {:?}", all[i].0, all[i].1, hits.len(), last.0, last.1)); } }
     }
     None
 }
 
-/// class tag of a failure: only the kinds a known finding explains are put into its class
-/// (an empty embedding explains panics and dimension-check failures, a NaN distance explains
-/// order failures and sort panics); anything else keeps its own tag and is reported as new
-fn classify(all: &[(u64, f32)], has_empty: bool, what: String) -> String {
+/// class tag of a failure.  No class is known any more (F-C13-1, -2, -3 are repaired in /repo):
+/// the text is returned as it is and every failure is a plain violation.  The switch below is
+/// what put order failures of answers with a sign-set NaN distance into class F-C13-3.
+fn classify(all: &[(u64, f32)], _has_empty: bool, what: String) -> String {
     let kind = what.split(':').next().unwrap_or("").to_string();
-    if has_empty && matches!(kind.as_str(), "panic" | "rejected" | "wrong-dim-accepted") { format!("empty-embedding: {}", what) }
-    else if all.iter().any(|(_, d)| d.is_nan()) && matches!(kind.as_str(), "panic" | "order" | "omitted-closer") { format!("nan-distance: {}", what) }
+    if NEG_NAN_CLASS && all.iter().any(|(_, d)| d.is_nan() && d.is_sign_negative()) && matches!(kind.as_str(), "order" | "omitted-closer") { format!("negative-nan-first: {}", what) }
     else { what }
 }
+const NEG_NAN_CLASS: bool = false;
 
 // ------------------------------------------------------------------ stream api / nan
-fn api_case(r: &mut Rng, nan: bool, w: &mut dyn std::io::Write) {
-    let mut pool = Pool::new();
+fn api_case(r: &mut Rng, nan: bool, forced_dim: Option<usize>, w: &mut dyn std::io::Write) {
     let mut tags: Vec<String> = vec![];
     let m = match r.below(100) { 0..=4 => 0usize, 5..=9 => 1, 10..=34 => r.range(2, 8) as usize, 35..=74 => r.range(9, 40) as usize, 75..=92 => r.range(41, 120) as usize, _ => r.range(121, 300) as usize };
     let m = if nan { m.min(60) } else { m };
-    let dim = pick_dim(r);
+    let dim = forced_dim.unwrap_or_else(|| pick_dim(r));
     let style = if nan { Style::Nan } else { pick_style(r) };
+    // how the documents differ from each other: independently drawn, or one base vector changed only in
+    // its last 1-3 coordinates (the scalar tail of the kernel), only in its first 1-3, or in one random place
+    let variation = if nan { 0 } else { r.below(5) };
+    let base = gen_vec(r, dim, style);
     let dup = r.chance(1, 3);
     let mixed = !nan && r.chance(1, 12) && m >= 2;
     let mut docs: Vec<(u64, Vec<f32>)> = vec![];
     let idmode = r.below(6);
     for i in 0..m {
-        let v = if dup && !docs.is_empty() && r.chance(3, 10) { docs[r.below(docs.len() as u64) as usize].1.clone() } else { gen_vec(r, dim, style) };
+        let v = if dup && !docs.is_empty() && r.chance(3, 10) { docs[r.below(docs.len() as u64) as usize].1.clone() } else { vary(r, &base, variation, style) };
         let fid = match idmode { 0 => (m - 1 - i) as u64, 1 => r.below(m as u64 / 2 + 1), 2 => i as u64 * 7 + 3, _ => i as u64 };
         docs.push((fid, v));
     }
     if mixed { let i = r.below(m as u64) as usize; let d2 = if r.chance(1, 3) { 0 } else if r.chance(1, 2) { dim + 1 } else { dim.saturating_sub(1) }; docs[i].1 = gen_vec(r, d2, style); tags.push("mixed-dim".into()); }
     tags.push(format!("m{}", match m { 0 => "0", 1 => "1", 2..=8 => "2-8", 9..=40 => "9-40", 41..=120 => "41-120", _ => "121-300" }));
-    tags.push(format!("dim{}", match dim { 1 => "1", 2..=7 => "2-7", 8..=16 => "8-16", 17..=32 => "17-32", _ => "33-64" }));
+    tags.extend(dim_tags(dim));
     tags.push(match style { Style::Tern => "tern", Style::SmallInt => "smallint", Style::Binary => "binary", Style::Uniform => "uniform", Style::Extreme => "extreme", Style::Nan => "naninf" }.into());
     if dup { tags.push("dup-vectors".into()); }
+    tags.push(match variation { 1 => "differ-in-tail", 2 => "differ-in-head", 3 => "differ-in-one-coordinate", _ => "independent-vectors" }.into());
 
+    let nq = r.range(2, 5);
+    let mut queries: Vec<(Vec<f32>, u64)> = vec![];
+    for _ in 0..nq {
+        let qk = r.below(12);
+        let q: Vec<f32> = match qk {
+            0 if m > 0 => docs[r.below(m as u64) as usize].1.clone(),
+            1 => vec![],
+            2 => gen_vec(r, dim + 1, style),
+            3 if dim > 1 => gen_vec(r, dim - 1, style),
+            4 if !nan => gen_vec(r, dim, Style::SmallInt),
+            5..=8 if variation != 0 => if r.chance(1, 2) { base.clone() } else { vary(r, &base, variation, style) },
+            _ => { let st = if nan && r.chance(1, 2) { Style::SmallInt } else { style }; gen_vec(r, dim, st) }
+        };
+        let k = pick_k(r, m);
+        queries.push((q, k));
+    }
+    run_api_case(&docs, &queries, tags, if nan { "nan" } else { "api" }, None, w);
+}
+
+/// one case on the public API: builder -> artifact -> decode -> searches; emits the case
+fn run_api_case(docs: &[(u64, Vec<f32>)], queries: &[(Vec<f32>, u64)], mut tags: Vec<String>, stream: &str, fixed_key: Option<&str>, w: &mut dyn std::io::Write) {
+    let mut pool = Pool::new();
+    let m = docs.len();
     // the implementation: builder -> artifact -> decode
     let mut b = VecIndexBuilder::new();
-    for (f, v) in &docs { b.add_document(*f, v.clone()); }
+    for (f, v) in docs { b.add_document(*f, v.clone()); }
     let artifact = b.finish().expect("finish");
     let index = VecIndex::decode(&artifact.bytes).expect("decode");
     let mut viol: Option<String> = None;
@@ -149,46 +243,36 @@ fn api_case(r: &mut Rng, nan: bool, w: &mut dyn std::io::Write) {
     let want_len = 8 + docs.iter().map(|(_, e)| 16 + 4 * e.len()).sum::<usize>();
     if artifact.bytes.len() != want_len { viol = Some(format!("roundtrip: artifact has {} bytes, {} expected", artifact.bytes.len(), want_len)); }
 
-    let nq = r.range(2, 5);
     let mut qterms = vec![]; let mut qids = vec![]; let mut outs = vec![]; let mut nontrivial = false;
-    for _ in 0..nq {
-        let qk = r.below(12);
-        let q: Vec<f32> = match qk {
-            0 if m > 0 => docs[r.below(m as u64) as usize].1.clone(),
-            1 => vec![],
-            2 => gen_vec(r, dim + 1, style),
-            3 if dim > 1 => gen_vec(r, dim - 1, style),
-            4 if !nan => gen_vec(r, dim, Style::SmallInt),
-            _ => { let st = if nan && r.chance(1, 2) { Style::SmallInt } else { style }; gen_vec(r, dim, st) }
-        };
-        let k = pick_k(r, m);
-        let qid = pool.id(&q);
-        for (_, v) in &docs { pool.id(v); }
+    for (q, k) in queries {
+        let k = *k;
+        let qid = pool.id(q);
+        for (_, v) in docs { pool.id(v); }
         qids.push(qid);
         qterms.push(T::Tup(vec![T::Tup(vec![T::N(q.len() as u128), T::N(qid as u128)]), T::N(k as u128)]));
-        let res = catch_unwind(AssertUnwindSafe(|| index.search(&q, k as usize)));
+        let res = catch_unwind(AssertUnwindSafe(|| index.search(q, k as usize)));
         let same_dim = docs.iter().all(|(_, v)| v.len() == q.len());
+        let all: Vec<(u64, f32)> = if same_dim && !q.is_empty() { docs.iter().map(|(f, v)| (*f, l2_distance_simd(q, v))).collect() } else { vec![] };
+        if all.iter().any(|(_, d)| d.is_nan()) { tags.push("nan-distance".into()); }
+        if all.iter().any(|(_, d)| d.is_nan() && d.is_sign_negative()) { tags.push("nan-distance-sign-set".into()); }
+        if all.iter().any(|(_, d)| d.is_infinite()) { tags.push("inf-distance".into()); }
+        // the one hypothesis of the numeric reading on the kernel: no distance is a negative number
+        if let Some((f, d)) = all.iter().find(|(_, d)| !d.is_nan() && d.is_sign_negative()) { tags.push("negative-distance".into()); viol.get_or_insert(format!("kernel-negative-distance: the kernel returned {:?} (bits {:08x}) for frame {}", d, d.to_bits(), f)); }
         match res {
             Err(_) => {
-                if same_dim {
-                    let all: Vec<(u64, f32)> = docs.iter().map(|(f, v)| (*f, l2_distance_simd(&q, v))).collect();
-                    viol.get_or_insert(classify(&all, false, format!("panic: VecIndex::search panicked although all {} documents have the query's dimension (k = {})", m, k)));
-                    if all.iter().any(|(_, d)| d.is_nan()) { tags.push("nan-distance".into()); tags.push("sort-panic".into()); }
-                }
-                // outside the guard the model cannot say whether std's sort notices the broken order: not compared
-                if nan { qterms.pop(); qids.pop(); } else { outs.push(panic_t()); }
+                outs.push(panic_t());
+                if same_dim { viol.get_or_insert(classify(&all, false, format!("panic: VecIndex::search panicked although all {} documents have the query's dimension (k = {})", m, k))); }
             }
             Ok(h) => {
                 let hits: Vec<(u64, f32)> = h.iter().map(|x| (x.frame_id, x.distance)).collect();
-                if nan {
-                    let mut c = hits.clone();
-                    c.sort_by(|a, b| a.0.cmp(&b.0).then_with(|| { let ka = if a.1.is_nan() { 1u64 << 32 } else { a.1.to_bits() as u64 }; let kb = if b.1.is_nan() { 1u64 << 32 } else { b.1.to_bits() as u64 }; ka.cmp(&kb) }));
-                    outs.push(ok(T::Tup(vec![T::N(hits.len() as u128), if k >= m as u64 { hits_term(&c) } else { T::L(vec![]) }])));
-                } else { outs.push(ok(hits_term(&hits))); }
+                outs.push(ok(hits_term(&hits)));
                 if same_dim && !q.is_empty() {
-                    let all: Vec<(u64, f32)> = docs.iter().map(|(f, v)| (*f, l2_distance_simd(&q, v))).collect();
                     if let Some(wh) = nn_oracle(&all, k, &hits) { viol.get_or_insert(classify(&all, false, wh)); }
-                    if all.iter().any(|(_, d)| d.is_nan()) { tags.push("nan-distance".into()); }
+                    match ref_oracle(docs, q, k, &hits) {
+                        Ok(Some(wh)) => { viol.get_or_insert(format!("reference-{}", wh)); tags.push("f64-reference".into()); }
+                        Ok(None) => tags.push("f64-reference".into()),
+                        Err(()) => tags.push("f64-reference-not-applicable".into()),
+                    }
                     if m >= 2 && k >= 1 { nontrivial = true; }
                     let mut ds: Vec<u32> = all.iter().map(|x| x.1.to_bits()).collect(); ds.sort(); ds.dedup();
                     if ds.len() < all.len() { tags.push("ties".into()); }
@@ -199,13 +283,9 @@ fn api_case(r: &mut Rng, nan: bool, w: &mut dyn std::io::Write) {
     tags.sort(); tags.dedup();
     let docs_t = T::L(docs.iter().map(|(f, v)| T::Tup(vec![T::N(*f as u128), pool.emb(v)])).collect());
     let input = T::Tup(vec![docs_t, T::L(qterms), pool.table(&qids)]);
-    let key = blake3::hash(input.coq().as_bytes()).to_hex()[..16].to_string();
-    if nan {
-        emit(w, "nan", &Case { input, output: T::L(outs), violation: viol, nontrivial, tags, key });
-    } else {
-        let output = T::Tup(vec![T::N(artifact.vector_count as u128), T::N(artifact.dimension as u128), T::L(outs)]);
-        emit(w, "api", &Case { input, output, violation: viol, nontrivial, tags, key });
-    }
+    let key = match fixed_key { Some(k) => k.to_string(), None => blake3::hash(input.coq().as_bytes()).to_hex()[..16].to_string() };
+    let output = T::Tup(vec![T::N(artifact.vector_count as u128), T::N(artifact.dimension as u128), T::L(outs)]);
+    emit(w, stream, &Case { input, output, violation: viol, nontrivial, tags, key });
 }
 
 // ------------------------------------------------------------------ stream mem
@@ -232,6 +312,7 @@ fn do_search(d: &mut Driver, pool: &mut Pool, rf: &RefIndex, q: &[f32], k: u64, 
     let idx_dim = rf.committed.first().map(|(_, v)| v.len());
     let uniform = rf.committed.iter().all(|(_, v)| Some(v.len()) == idx_dim);
     let all: Vec<(u64, f32)> = if uniform && idx_dim == Some(q.len()) { rf.committed.iter().map(|(f, v)| (*f, l2_distance_simd(q, v))).collect() } else { vec![] };
+    if let Some((f, d)) = all.iter().find(|(_, d)| !d.is_nan() && d.is_sign_negative()) { viol.get_or_insert(format!("kernel-negative-distance: the kernel returned {:?} (bits {:08x}) for frame {}", d, d.to_bits(), f)); }
     match res {
         Err(_) => {
             outs.push(panic_t());
@@ -252,6 +333,7 @@ fn do_search(d: &mut Driver, pool: &mut Pool, rf: &RefIndex, q: &[f32], k: u64, 
                 viol.get_or_insert(classify(&all, has_empty, format!("wrong-dim-accepted: a query of dimension {} was answered over an index of dimension {:?}", q.len(), idx_dim)));
             } else if m > 0 && uniform {
                 if let Some(wh) = nn_oracle(&all, k, &hits) { viol.get_or_insert(classify(&all, has_empty, wh)); }
+                if let Ok(Some(wh)) = ref_oracle(&rf.committed, q, k, &hits) { viol.get_or_insert(format!("reference-{}", wh)); }
                 if m >= 2 && k >= 1 { *nontrivial = true; }
             } else if m == 0 && !hits.is_empty() {
                 viol.get_or_insert(classify(&all, has_empty, format!("count: {} hits over an index without active embedded frames", hits.len())));
@@ -261,15 +343,12 @@ fn do_search(d: &mut Driver, pool: &mut Pool, rf: &RefIndex, q: &[f32], k: u64, 
     }
 }
 
+enum S { Put(Option<Vec<f32>>), Del(u64), Commit, Reopen, Search(Vec<f32>, u64) }
+
 /// a fixed history through the corners of the dimension logic: empty memory, pending only,
 /// committed, wrong dimension, delete everything (dimension forgotten), another dimension, reopen
-fn scripted_history(w: &mut dyn std::io::Write) {
-    let mut d = Driver::new(); let mut pool = Pool::new();
-    let mut rf = RefIndex { committed: vec![], pending_put: vec![], pending_del: vec![], dirty: false };
-    let mut ops: Vec<T> = vec![]; let mut outs: Vec<T> = vec![]; let mut qids: Vec<u64> = vec![];
-    let mut viol: Option<String> = None; let mut nontrivial = false; let mut uri = 0u32;
-    enum S { Put(Option<Vec<f32>>), Del(u64), Commit, Reopen, Search(Vec<f32>, u64) }
-    let script = vec![
+fn script_dimension_corners() -> Vec<S> {
+    vec![
         S::Search(vec![1.0, 2.0], 3), S::Put(None), S::Search(vec![1.0, 2.0], 3),
         S::Put(Some(vec![1.0, 0.0])), S::Put(Some(vec![0.0, 3.0])), S::Search(vec![1.0, 2.0], 3), S::Search(vec![1.0, 2.0, 3.0], 3),
         S::Commit, S::Search(vec![1.0, 2.0], 1), S::Search(vec![1.0, 2.0], 5), S::Search(vec![1.0], 5), S::Search(vec![], 5), S::Put(Some(vec![1.0, 2.0, 3.0])),
@@ -277,7 +356,37 @@ fn scripted_history(w: &mut dyn std::io::Write) {
         S::Reopen, S::Search(vec![1.0, 2.0], 5), S::Search(vec![4.0], 2),
         S::Put(Some(vec![1.0, 2.0, 2.0])), S::Put(Some(vec![1.0, 2.0])), S::Search(vec![1.0, 2.0], 5), S::Commit, S::Search(vec![1.0, 2.0, 3.0], 5), S::Search(vec![1.0, 2.0], 5),
         S::Reopen, S::Search(vec![1.0, 2.0, 3.0], 5),
-    ];
+    ]
+}
+
+/// fixed corpus, former finding F-C13-1 (repaired by 564c799): an empty embedding after a real
+/// one, and an empty embedding as the very first one (it used to switch the dimension check off)
+fn script_empty_embedding_after() -> Vec<S> {
+    vec![S::Put(Some(vec![1.0, 0.0])), S::Put(Some(vec![])), S::Commit, S::Search(vec![1.0, 2.0], 1), S::Search(vec![1.0, 2.0], 5),
+         S::Reopen, S::Search(vec![1.0, 2.0], 5), S::Del(1), S::Commit, S::Search(vec![1.0, 2.0], 5)]
+}
+fn script_empty_embedding_first() -> Vec<S> {
+    vec![S::Put(Some(vec![])), S::Search(vec![1.0, 2.0], 3), S::Commit, S::Search(vec![1.0, 2.0], 3), S::Put(Some(vec![5.0, 5.0])), S::Put(Some(vec![])), S::Commit,
+         S::Search(vec![1.0, 2.0], 3), S::Put(Some(vec![1.0, 2.0, 3.0])), S::Put(Some(vec![2.0, 2.0])), S::Reopen, S::Search(vec![1.0, 2.0], 3), S::Search(vec![1.0, 2.0, 3.0], 3)]
+}
+/// fixed corpus, former finding F-C13-2 on a real memory: inf and NaN components stored
+fn script_nan_components() -> Vec<S> {
+    vec![S::Put(Some(vec![4.0, 2.0])), S::Put(Some(vec![7.0, 2.0])), S::Put(Some(vec![f32::INFINITY, 2.0])), S::Put(Some(vec![f32::NAN, 2.0])), S::Put(Some(vec![2.0, 4.0])),
+         S::Commit, S::Search(vec![1.0, 2.0], 1), S::Search(vec![1.0, 2.0], 3), S::Search(vec![1.0, 2.0], 9), S::Search(vec![f32::NAN, 2.0], 2), S::Search(vec![-3.0, f32::NEG_INFINITY], 9),
+         S::Reopen, S::Search(vec![1.0, 2.0], 9)]
+}
+/// fixed corpus, former finding F-C13-3 (repaired by 1932440) on a real memory: query and a stored embedding are both
+/// +inf in the first component: inf - inf is the x86 default NaN (sign bit set), which plain total_cmp put first
+fn script_negative_nan_first() -> Vec<S> {
+    vec![S::Put(Some(vec![4.0, 2.0])), S::Put(Some(vec![f32::INFINITY, 2.0])), S::Put(Some(vec![2.0, 4.0])), S::Commit,
+         S::Search(vec![f32::INFINITY, 2.0], 1), S::Search(vec![f32::INFINITY, 2.0], 3), S::Reopen, S::Search(vec![f32::INFINITY, 2.0], 3)]
+}
+
+fn scripted_history(script: Vec<S>, tag: &str, key: &str, w: &mut dyn std::io::Write) {
+    let mut d = Driver::new(); let mut pool = Pool::new();
+    let mut rf = RefIndex { committed: vec![], pending_put: vec![], pending_del: vec![], dirty: false };
+    let mut ops: Vec<T> = vec![]; let mut outs: Vec<T> = vec![]; let mut qids: Vec<u64> = vec![];
+    let mut viol: Option<String> = None; let mut nontrivial = false; let mut uri = 0u32;
     for st in script {
         match st {
             S::Put(emb) => {
@@ -285,7 +394,7 @@ fn scripted_history(w: &mut dyn std::io::Write) {
                 let obs = d.step(&Op::Put { kind: PayloadKind::Bin, size: 12, uri: Some(uri), ts: 1_700_000_000 + uri as i64, embed: emb.clone(), default_opts: false });
                 let et = match &emb { Some(e) => T::some(pool.emb(e)), None => T::none() };
                 ops.push(T::C("VPut", vec![T::N(obs.next_before as u128), et]));
-                if obs.ok { outs.push(ok(T::L(vec![]))); rf.dirty = true; if let Some(e) = emb { rf.pending_put.push((obs.next_before, e)); } } else { outs.push(err(2)); }
+                if obs.ok { outs.push(ok(T::L(vec![]))); rf.dirty = true; if let Some(e) = emb { if !e.is_empty() { rf.pending_put.push((obs.next_before, e)); } } } else { outs.push(err(2)); }
                 if auto_commit(&obs) { rf.commit(); ops.push(T::C("VCommit", vec![])); outs.push(ok(T::L(vec![]))); }
             }
             S::Del(target) => {
@@ -299,16 +408,16 @@ fn scripted_history(w: &mut dyn std::io::Write) {
     }
     for v in rf.committed.iter().chain(rf.pending_put.iter()) { pool.id(&v.1); }
     let input = T::Tup(vec![T::L(ops), pool.table(&qids)]);
-    emit(w, "mem", &Case { input, output: T::L(outs), violation: viol, nontrivial, tags: vec!["scripted-dimension-corners".into()], key: "scripted-1".into() });
+    emit(w, "mem", &Case { input, output: T::L(outs), violation: viol, nontrivial, tags: vec![tag.to_string()], key: key.to_string() });
 }
 
-fn mem_history(r: &mut Rng, big: bool, w: &mut dyn std::io::Write) {
+fn mem_history(r: &mut Rng, big: bool, forced_dim: Option<usize>, w: &mut dyn std::io::Write) {
     let mut d = Driver::new();
     let mut pool = Pool::new();
     let mut tags: Vec<String> = vec![];
-    let dim = if r.chance(1, 2) { r.range(1, 8) as usize } else { pick_dim(r) };
-    let style = pick_style(r);
-    let with_empty = r.chance(1, 8);
+    let dim = forced_dim.unwrap_or_else(|| pick_dim(r));
+    let style = if r.chance(1, 7) { Style::Nan } else { pick_style(r) };
+    let with_empty = r.chance(1, 4);
     let explicit_enable = r.chance(1, 6);
     let nops = if big { r.range(120, 330) as usize } else { match r.below(10) { 0 => r.range(3, 8) as usize, 1..=6 => r.range(10, 40) as usize, _ => r.range(40, 90) as usize } };
     let put_weight = if big { 90 } else { r.range(35, 70) };
@@ -348,7 +457,8 @@ fn mem_history(r: &mut Rng, big: bool, w: &mut dyn std::io::Write) {
             if obs.ok {
                 outs.push(ok(T::L(vec![])));
                 rf.dirty = true;
-                if let Some(e) = emb { if e.is_empty() { has_empty = true; } if e.len() == dim { all_vecs.push(e.clone()); } rf.pending_put.push((fid, e)); }
+                // an empty vector is no embedding: the frame is stored without one
+                if let Some(e) = emb { if e.is_empty() { has_empty = true; } else { if e.len() == dim { all_vecs.push(e.clone()); } rf.pending_put.push((fid, e)); } }
             } else { outs.push(err(2)); }
             if auto_commit(&obs) { rf.commit(); ops.push(T::C("VCommit", vec![])); outs.push(ok(T::L(vec![]))); tags.push("auto-commit".into()); }
         } else if !closing && c < put_weight + 8 && !rf.committed.is_empty() && rf.committed.len() <= 8 && slow < slow_cap && r.chance(1, 2) {
@@ -427,7 +537,7 @@ fn mem_history(r: &mut Rng, big: bool, w: &mut dyn std::io::Write) {
     }
     for v in rf.committed.iter().chain(rf.pending_put.iter()) { pool.id(&v.1); }
     tags.push(format!("final-m{}", match rf.committed.len() { 0 => "0", 1..=5 => "1-5", 6..=20 => "6-20", 21..=60 => "21-60", _ => "61+" }));
-    tags.push(format!("dim{}", match dim { 1 => "1", 2..=7 => "2-7", 8..=16 => "8-16", 17..=32 => "17-32", _ => "33-64" }));
+    tags.extend(dim_tags(dim));
     tags.push(match style { Style::Tern => "tern", Style::SmallInt => "smallint", Style::Binary => "binary", Style::Uniform => "uniform", Style::Extreme => "extreme", Style::Nan => "naninf" }.into());
     if has_empty { tags.push("empty-embedding-put".into()); }
     if ndelete > 0 { tags.push("deletes".into()); }
@@ -442,73 +552,100 @@ fn mem_history(r: &mut Rng, big: bool, w: &mut dyn std::io::Write) {
     emit(w, "mem", &Case { input, output: T::L(outs), violation: viol, nontrivial, tags, key });
 }
 
-/// the witnesses of the two known findings, run on the implementation each time
-fn witnesses(w: &mut dyn std::io::Write) {
-    // F-C13-1: an empty embedding is accepted; afterwards search_vec panics
-    {
-        let mut d = Driver::new(); let mut pool = Pool::new();
-        let mut ops = vec![]; let mut outs = vec![]; let mut qids = vec![];
-        let embs: Vec<Vec<f32>> = vec![vec![1.0, 0.0], vec![]];
-        let mut okputs = true;
-        for (i, e) in embs.iter().enumerate() {
-            let obs = d.step(&Op::Put { kind: PayloadKind::Bin, size: 8, uri: Some(i as u32 + 1), ts: 1_700_000_000, embed: Some(e.clone()), default_opts: false });
-            okputs &= obs.ok;
-            ops.push(T::C("VPut", vec![T::N(obs.next_before as u128), T::some(pool.emb(e))])); outs.push(if obs.ok { ok(T::L(vec![])) } else { err(2) });
-        }
-        d.step(&Op::Commit); ops.push(T::C("VCommit", vec![])); outs.push(ok(T::L(vec![])));
-        let q = vec![1.0f32, 2.0]; let qid = pool.id(&q); qids.push(qid);
-        ops.push(T::C("VSearch", vec![T::Tup(vec![T::N(2), T::N(qid as u128)]), T::N(1)]));
-        let res = catch_unwind(AssertUnwindSafe(|| d.mem().search_vec(&q, 1)));
-        let viol = match res {
-            Err(_) => { outs.push(panic_t()); Some("empty-embedding: witness: put_with_embedding(.., vec![]) was accepted and search_vec(&[1.0, 2.0], 1) panics after the commit".to_string()) }
-            Ok(Ok(h)) => { outs.push(ok(hits_term(&h.iter().map(|x| (x.frame_id, x.distance)).collect::<Vec<_>>()))); None }
-            Ok(Err(e)) => { outs.push(err(err_kind(&e))); None }
-        };
-        let _ = okputs;
-        let input = T::Tup(vec![T::L(ops), pool.table(&qids)]);
-        emit(w, "mem", &Case { input, output: T::L(outs), violation: viol, nontrivial: true, tags: vec!["witness-empty-embedding".into()], key: "witness-F-C13-1".into() });
-    }
-    // F-C13-2: one NaN distance and the nearest frame is no longer returned first
-    {
-        let vs: Vec<Vec<f32>> = vec![vec![4.0, 2.0], vec![7.0, 2.0], vec![f32::INFINITY, 2.0], vec![f32::NAN, 2.0], vec![2.0, 4.0]];
-        let mut b = VecIndexBuilder::new(); let mut pool = Pool::new();
-        for (i, v) in vs.iter().enumerate() { b.add_document(i as u64, v.clone()); pool.id(v); }
-        let index = VecIndex::decode(&b.finish().expect("finish").bytes).expect("decode");
-        let q = vec![1.0f32, 2.0]; let qid = pool.id(&q);
-        let h: Vec<(u64, f32)> = index.search(&q, 1).iter().map(|x| (x.frame_id, x.distance)).collect();
-        let all: Vec<(u64, f32)> = vs.iter().enumerate().map(|(i, v)| (i as u64, l2_distance_simd(&q, v))).collect();
-        let viol = nn_oracle(&all, 1, &h).map(|wh| classify(&all, false, wh).replacen(": ", ": witness: ", 1));
-        let docs_t = T::L(vs.iter().enumerate().map(|(i, v)| T::Tup(vec![T::N(i as u128), pool.emb(v)])).collect());
-        let input = T::Tup(vec![docs_t, T::L(vec![T::Tup(vec![T::Tup(vec![T::N(2), T::N(qid as u128)]), T::N(1)])]), pool.table(&[qid])]);
-        emit(w, "nan", &Case { input, output: T::L(vec![ok(T::Tup(vec![T::N(h.len() as u128), T::L(vec![])]))]), violation: viol, nontrivial: true, tags: vec!["witness-nan-distance".into()], key: "witness-F-C13-2".into() });
+/// fixed corpus: the witnesses of the two repaired findings (and their neighbourhood) run first
+fn fixed_corpus(w: &mut dyn std::io::Write) {
+    scripted_history(script_empty_embedding_after(), "corpus-empty-embedding", "corpus-F-C13-1a", w);
+    scripted_history(script_empty_embedding_first(), "corpus-empty-embedding-first", "corpus-F-C13-1b", w);
+    scripted_history(script_nan_components(), "corpus-nan-components", "corpus-F-C13-2c", w);
+    // F-C13-2: one NaN distance and the nearest frame was not returned first
+    let vs: Vec<(u64, Vec<f32>)> = vec![vec![4.0, 2.0], vec![7.0, 2.0], vec![f32::INFINITY, 2.0], vec![f32::NAN, 2.0], vec![2.0, 4.0]].into_iter().enumerate().map(|(i, v)| (i as u64, v)).collect();
+    run_api_case(&vs, &[(vec![1.0, 2.0], 1), (vec![1.0, 2.0], 3), (vec![1.0, 2.0], 5), (vec![f32::NEG_INFINITY, 2.0], 1), (vec![0.0, f32::INFINITY], 5), (vec![f32::NAN, 0.0], 2)],
+                 vec!["corpus-nan-order".into()], "nan", Some("corpus-F-C13-2a"), w);
+    // F-C13-3 (repaired by 1932440): a stored NaN with the sign bit set (what 0.0 / 0.0 gives on x86) ranked first
+    let xnan = f32::from_bits(0xFFC0_0000);
+    let vs: Vec<(u64, Vec<f32>)> = vec![vec![4.0, 2.0], vec![7.0, 2.0], vec![xnan, 2.0], vec![2.0, 4.0]].into_iter().enumerate().map(|(i, v)| (i as u64, v)).collect();
+    run_api_case(&vs, &[(vec![1.0, 2.0], 1), (vec![1.0, 2.0], 4)], vec!["corpus-negative-nan-first".into()], "nan", Some("corpus-F-C13-3a"), w);
+    scripted_history(script_negative_nan_first(), "corpus-negative-nan-first", "corpus-F-C13-3b", w);
+    // F-C13-2, second face: 21 hits, five NaN: std's sort_by noticed the broken order and panicked
+    let n = f32::NAN;
+    let vals = [n, 3.0, 2.0, 1.0, n, 2.0, 3.0, 2.0, 2.0, 1.0, 3.0, 1.0, 1.0, n, 1.0, n, 3.0, 3.0, n, 1.0, 2.0];
+    let vs: Vec<(u64, Vec<f32>)> = vals.iter().enumerate().map(|(i, v)| (i as u64, vec![*v])).collect();
+    run_api_case(&vs, &[(vec![0.0], 5), (vec![0.0], 21), (vec![0.0], 17), (vec![f32::NAN], 3)], vec!["corpus-nan-sort-panic".into()], "nan", Some("corpus-F-C13-2b"), w);
+}
+
+/// fixed-first corpus for the kernel's lane structure: for EVERY dimension 1..=40 and the edges of
+/// 48/64/128/384, documents that differ from the query only in the last coordinate, only in the
+/// first, and only around the last multiples of 8 and 16: the exact ranking is known (distance j for
+/// the documents base + j * e_p), so a kernel that reads a wrong tail misranks them
+fn residue_docs(dim: usize) -> (Vec<f32>, Vec<(u64, Vec<f32>)>, usize) {
+    let base: Vec<f32> = (0..dim).map(|i| ((i * 7 + 3) % 5) as f32 - 2.0).collect();
+    let mut positions = vec![dim - 1, 0, dim / 2, dim.saturating_sub(2)];
+    for lanes in [8usize, 16, 32] { if dim > lanes { let edge = ((dim - 1) / lanes) * lanes; positions.push(edge); positions.push(edge - 1); } }
+    positions.sort(); positions.dedup();
+    // documents: base + j at position p, j = 3, 1, 2: stored in an order that is not the distance order
+    let mut docs: Vec<(u64, Vec<f32>)> = vec![]; let mut fid = 0u64;
+    for j in [3usize, 1, 2] { for p in &positions { let mut v = base.clone(); v[*p] += j as f32; docs.push((fid, v)); fid += 1; } }
+    docs.push((fid, base.clone()));
+    (base, docs, positions.len())
+}
+fn residue_dims() -> Vec<usize> { let mut dims: Vec<usize> = (1..=40).collect(); dims.extend_from_slice(&BIG_DIMS); dims }
+fn residue_corpus(w: &mut dyn std::io::Write) {
+    for dim in residue_dims() {
+        let (base, docs, npos) = residue_docs(dim);
+        let m = docs.len() as u64;
+        let mut q2 = base.clone(); q2[dim - 1] += 0.5;
+        let mut tags = dim_tags(dim); tags.push("corpus-dim-residue".into()); tags.push("differ-in-tail".into()); tags.push("differ-in-head".into());
+        run_api_case(&docs, &[(base.clone(), 1), (base.clone(), npos as u64 + 1), (base.clone(), m), (q2, 3)], tags, "api", Some(&format!("corpus-dim-{}", dim)), w);
     }
 }
 
-/// F-C13-2, second face: with NaN distances std's stable sort may notice the broken order and panic
-fn witness_sort_panic(w: &mut dyn std::io::Write) {
-    let n = f32::NAN;
-    let vals = [n, 3.0, 2.0, 1.0, n, 2.0, 3.0, 2.0, 2.0, 1.0, 3.0, 1.0, 1.0, n, 1.0, n, 3.0, 3.0, n, 1.0, 2.0];
-    let mut b = VecIndexBuilder::new(); let mut pool = Pool::new();
-    for (i, v) in vals.iter().enumerate() { b.add_document(i as u64, vec![*v]); pool.id(&[*v]); }
-    let index = VecIndex::decode(&b.finish().expect("finish").bytes).expect("decode");
-    let res = catch_unwind(AssertUnwindSafe(|| index.search(&[0.0], 5)));
-    let viol = if res.is_err() { Some("nan-distance: witness: panic: VecIndex::search(&[0.0], 5) over 21 one-dimensional embeddings, five of them NaN, panics inside sort_by (comparison is not a total order)".to_string()) } else { None };
-    let docs_t = T::L(vals.iter().enumerate().map(|(i, v)| T::Tup(vec![T::N(i as u128), pool.emb(&[*v])])).collect());
-    let input = T::Tup(vec![docs_t, T::L(vec![]), T::L(vec![])]);
-    emit(w, "nan", &Case { input, output: T::L(vec![]), violation: viol, nontrivial: true, tags: vec!["witness-nan-sort-panic".into()], key: "witness-F-C13-2b".into() });
+#[cfg(test)]
+mod tests {
+    use super::*;
+    /// a kernel unrolled to 16 lanes whose scalar tail starts at the last multiple of 8 instead of 16:
+    /// for d mod 16 in 9..=15 eight coordinates are skipped
+    fn buggy(a: &[f32], b: &[f32]) -> f32 {
+        let n = a.len(); let c16 = n / 16; let mut s = 0f32;
+        for i in 0..c16 * 16 { let d = a[i] - b[i]; s += d * d; }
+        let start = if n % 16 > 8 { (n / 8) * 8 } else { c16 * 16 };
+        for i in start..n { let d = a[i] - b[i]; s += d * d; }
+        s.sqrt()
+    }
+    fn search_with(kernel: fn(&[f32], &[f32]) -> f32, docs: &[(u64, Vec<f32>)], q: &[f32], k: usize) -> Vec<(u64, f32)> {
+        let mut h: Vec<(u64, f32)> = docs.iter().map(|(f, v)| (*f, kernel(q, v))).collect();
+        h.sort_by(|a, b| a.1.total_cmp(&b.1)); h.truncate(k); h
+    }
+    #[test]
+    fn reference_oracle_catches_a_wrong_tail_for_every_affected_dimension() {
+        for dim in residue_dims() {
+            let (base, docs, npos) = residue_docs(dim);
+            let mut flagged = false; let mut clean = true;
+            for k in [1usize, npos + 1, docs.len()] {
+                let hits = search_with(buggy, &docs, &base, k);
+                if let Ok(Some(_)) = ref_oracle(&docs, &base, k as u64, &hits) { flagged = true; }
+                let good = search_with(|a, b| l2_distance_simd(a, b), &docs, &base, k);
+                if ref_oracle(&docs, &base, k as u64, &good) != Ok(None) { clean = false; }
+            }
+            assert!(clean, "false alarm of the reference oracle at dimension {}", dim);
+            assert_eq!(flagged, dim % 16 > 8, "dimension {}: wrong-tail kernel flagged = {}", dim, flagged);
+        }
+    }
 }
 
 pub fn run(seed: u64, n: usize, tier: &str, w: &mut dyn std::io::Write) {
     let prev = std::panic::take_hook();
     std::panic::set_hook(Box::new(|_| {}));
     let mut r = Rng::new(seed ^ 0xC13);
-    witnesses(w);
-    witness_sort_panic(w);
-    scripted_history(w);
+    fixed_corpus(w);
+    scripted_history(script_dimension_corners(), "scripted-dimension-corners", "scripted-1", w);
     // n api cases, n/5 nan cases, n/6 histories on real memories (a few of them large in thorough)
-    for _ in 0..n { api_case(&mut r, false, w); }
-    for _ in 0..n / 5 { api_case(&mut r, true, w); }
+    residue_corpus(w);
+    // the first 16 generated cases sweep the residues mod 16 once more with random content
+    for i in 0..n { let forced = if i < 16 { Some(17 + i) } else { None }; api_case(&mut r, false, forced, w); }
+    for _ in 0..n / 5 { api_case(&mut r, true, None, w); }
     let nh = n / 15;
-    for i in 0..nh { mem_history(&mut r, tier == "thorough" && i % 10 == 0, w); }
+    // histories: the first ones walk through dimensions 9..15 mod 16 and the lane edges
+    let mem_dims = [13usize, 29, 9, 16, 12, 33, 15, 8, 27, 64];
+    for i in 0..nh { let forced = if i < mem_dims.len() { Some(mem_dims[i]) } else { None }; mem_history(&mut r, tier == "thorough" && i % 10 == 0, forced, w); }
     std::panic::set_hook(prev);
 }
